@@ -562,3 +562,13 @@ package core
 //@   assumed
 //@   ensures (result == nil ==> ruleWriteFailed[0] == old(ruleWriteFailed[0])) && (result != nil ==> ruleWriteFailed[0] == old(ruleWriteFailed[0]) + 1)
 //@   modifies ghost kvhas, ghost kvval, ghost ruleWriteFailed
+
+// LoadRangeByPrefix (paged scan used to load placement rules, rule groups, ...): every page after the first starts at
+// a key of the form k + one more byte, never at a delivered key itself - otherwise the last key of every full page
+// would be delivered twice (the rule loader treats a second delivery as a duplicate and deletes the rule).
+//@ func (*Storage).LoadRangeByPrefix
+//@   props C13 C17
+//@   option pureparams
+//@   requires s != nil
+//@   loop 1 invariant [cursor-is-past-a-key] nextKey == prefix || (exists k string, z string :: len(z) == 1 && nextKey == strcat(k, z))
+//@   modifies ghost evres
